@@ -92,7 +92,13 @@ let () =
         let hi = int_of_string h in
         if (hi + 1) mod 8192 = 0 then cur := set_window !cur (n_of_int (hi + 1 - 8192)) true;
         print_endline "ok"
-    | ["rev"; h] -> cur := set_block !cur (n h) false; print_endline "ok"
+    | ["rev"; h] ->
+        (* RevertHead of block h; reverting the last block of a window re-enters that window: the running
+           filter drops its persisted copy (core/running_event_filter.go onReorg) *)
+        cur := set_block !cur (n h) false;
+        let hi = int_of_string h in
+        if (hi + 1) mod 8192 = 0 then cur := set_window !cur (n_of_int (hi + 1 - 8192)) false;
+        print_endline "ok"
     | ["plan"; head; e; k; rot; m] ->
         (* reply: "<batches in plan> <oldestKept if run to the end> <oldest before>" ; applies the first m *)
         let pl = prune_plan !cur (n head) (n e) (n k) (parse_rot rot) in
